@@ -362,7 +362,7 @@ def c11(ctx):
 # ----------------------------------------------------------------------------- C10
 @prop("C10")
 def c10(ctx):
-    cases = gen(ctx, "Gen_C10", cfgtext(invariants=["Emit"]), timeout=3000, heap="8g")
+    cases = gen(ctx, "Gen_C10", cfgtext(invariants=["Emit"], constants=dict(Deep="FALSE" if ctx.quick() else "TRUE")), timeout=3000, heap="8g")
     events = harness(ctx, ["exec", "memflow"], cases)
     rejects = judge(ctx, "Trace_C10", events)
     return report(ctx, events, rejects,
@@ -447,7 +447,8 @@ def c14(ctx):
 # ----------------------------------------------------------------------------- C17
 @prop("C17")
 def c17(ctx):
-    cases = gen(ctx, "Gen_C17", cfgtext(invariants=["Emit"]), timeout=3000)
+    lens = [0, 1, 55, 56, 64, 119, 1000] if ctx.quick() else list(range(0, 9)) + [55, 56, 57, 63, 64, 65, 111, 112, 113, 119, 120, 127, 128, 129, 1000, 4096, 65536]
+    cases = gen(ctx, "Gen_C17", cfgtext(invariants=["Emit"], constants=dict(MsgLens=tlanums(lens))), timeout=3000)
     fac = [c for c in cases if c["what"] == "factory"]
     dig = [c for c in cases if c["what"] == "digest"]
     if ctx.quick():
@@ -467,7 +468,7 @@ def c17(ctx):
 # ----------------------------------------------------------------------------- C16
 @prop("C16")
 def c16(ctx):
-    nn, seeds = (150, [ctx.seed]) if ctx.quick() else (2000, [ctx.seed, ctx.seed + 1, ctx.seed + 2, ctx.seed + 3])
+    nn, seeds = (150, [ctx.seed]) if ctx.quick() else (15000, [ctx.seed + i for i in range(24)])
     cases = gen(ctx, "Gen_C16", cfgtext(invariants=["RenderOK", "Emit"], constants=dict(NativeN=nn, Seeds=tlanums(seeds))), timeout=3000)
     events = []
     for op in ("ecdsa-render", "ecdsa-native", "ecdsa-accept"):
